@@ -81,7 +81,7 @@ def run(ctx, chk):
                         inner = t[2][0]
                         s = show(inner)
                         return "bits(arg1)" in s or "arg1" in s
-                    if an.is_call(t, re.compile(r"^seq::iterators::<impl seq::slice::SeqSlice<A>>::rev_iter$")):
+                    if an.is_call(t, re.compile(r"^seq::slice::SeqSlice::<A>::rev_iter$")):
                         return True
                     return False
                 ok = same_chain and reversed_all(a0)
